@@ -9,7 +9,7 @@ var profCb = &Profile{
 	Name: "C17-callbacks", MinOps: 3, MaxOps: 40, NColls: 3, MemPct: 10, Cmps: true, BigVals: true, BigKeys: true, EndOnly: 40, Snaps: true,
 	Kinds: []wk{{OpSet, 30}, {OpSetR, 3}, {OpDel, 10}, {OpGet, 6}, {OpGetItem, 4}, {OpMin, 2}, {OpMax, 2}, {OpTotals, 2}, {OpVisit, 10},
 		{OpFlush, 12}, {OpEvict, 8}, {OpReopen, 7}, {OpSetColl, 3}, {OpRmColl, 1}, {OpExist, 1}, {OpCopyTo, 2}, {OpSnap, 2}, {OpSnapClose, 2},
-		{OpLen, 1}, {OpBlock, 1}, {OpRevert, 1}, {OpBadSet, 3}, {OpSet, 3}},
+		{OpLen, 1}, {OpBlock, 1}, {OpRevert, 1}, {OpBadSet, 3}, {OpSet, 3}, {OpSnapRev, 2}, {OpMisc, 1}},
 }
 
 const c17Rule = "all 256 subsets of {ItemAlloc, ItemAddRef/DecRef, ItemValLength, ItemValWrite (chunked), ItemValRead (chunked), BeforeItemWrite, AfterItemRead, KeyCompareForCollection} are enumerated round-robin (subset = case number mod 256) over rapid-generated histories (lookups, range visits through all six APIs, Flush, evict, re-open, comparators, big keys/values); oracles of C01/C02/C06/C14 stay on (reference map after every op, probe re-open after every op, range sequences, independent decoder after every Flush) and the final file image must be byte-identical to the image the same history produces with no callbacks. Non-trivial = >=2 callbacks installed, at least one of them actually invoked, and the history contains a flush plus an effective evict or re-open."
